@@ -65,10 +65,10 @@ def snapshot(base: Path) -> dict:
             if p.is_symlink():
                 snap[rel] = ('link', os.readlink(p))
             elif p.is_dir():
-                snap[rel] = ('dir',)
+                snap[rel] = ('dir', p.stat().st_mode)            # (permission bits are part of what must not be touched)
             else:
                 st = p.stat()
-                snap[rel] = ('file', p.read_bytes(), st.st_mtime_ns)
+                snap[rel] = ('file', p.read_bytes(), st.st_mtime_ns, st.st_mode)
     return snap
 
 
